@@ -3,6 +3,7 @@ package tar
 import (
 	"context"
 	"io"
+	iofs "io/fs"
 	gopath "path"
 	"strings"
 	"sync"
@@ -24,9 +25,9 @@ func VerifC12Names() {
 	verifReach("resolved")
 	verifObserveStr("resolved", r)
 	escaping := r == ".." || strings.HasPrefix(r, "../")
-	verifAssert(hackpadfs.ValidPath(r) || escaping, "resolvePath returned neither a valid path nor a path starting with '..'")
+	verifAssert(iofs.ValidPath(r) || escaping, "resolvePath returned neither a valid path nor a path starting with '..'")
 	// normalisation: './x', '/x', 'a//b' and a trailing '/' are spellings of the same entry
-	if hackpadfs.ValidPath(name) {
+	if iofs.ValidPath(name) {
 		verifAssert(r == name, "resolvePath changed a name that is already a valid path")
 		verifAssert(resolvePath("./"+name) == name, "'./x' is not normalised to 'x'")
 		verifAssert(resolvePath("/"+name) == name, "'/x' is not normalised to 'x'")
@@ -105,8 +106,11 @@ func (t *c12Txn) end() {
 		t.mu.Unlock()
 	}
 }
-func (t *c12Txn) Commit(ctx context.Context) ([]keyvalue.OpResult, error) { t.end(); return t.results, nil }
-func (t *c12Txn) Abort() error                                              { t.end(); return nil }
+func (t *c12Txn) Commit(ctx context.Context) ([]keyvalue.OpResult, error) {
+	t.end()
+	return t.results, nil
+}
+func (t *c12Txn) Abort() error { t.end(); return nil }
 
 type c12Entry struct {
 	name  string // logical name
@@ -205,8 +209,8 @@ func VerifC12Tree() {
 	verifAssert(tfs.UnarchiveErr() == nil, "unpacking a well-formed archive failed")
 	// expected logical tree
 	type want struct {
-		isDir   bool
-		entry   int // catalogue index or -1 for an implicit ancestor
+		isDir bool
+		entry int // catalogue index or -1 for an implicit ancestor
 	}
 	expect := map[string]want{}
 	var names []string
